@@ -470,6 +470,54 @@ pub fn run(ctx: &Ctx) -> i32 {
             check_tuple(&ins, b, ev);
             ev.count("cov:large-random-tuples");
         }
+        // run-structured tuples: long stretches of keys held by ONE stream only (run lengths around 8, 16, 32, 64, 100),
+        // each followed by a key shared with other streams whose values are smaller / equal / larger in every combination:
+        // the shape on which an adaptive ("galloping", run-detecting, batching) implementation of an operation would switch modes
+        let nrun = ctx.tier.pick(400, 6000);
+        for b in 0..nrun {
+            if b % n != shard {
+                continue;
+            }
+            let mut r = Rng::new(ctx.seed, 0x6A11 + b as u64);
+            let k = 2 + r.usize(4);
+            let mut models: Vec<Kv> = vec![vec![]; k];
+            let mut key_no = 0u32;
+            let nruns = 3 + r.usize(12);
+            for _ in 0..nruns {
+                let owner = r.usize(k);
+                let len = *r.pick(&[1usize, 2, 6, 7, 8, 9, 15, 16, 17, 31, 32, 33, 64, 100]);
+                for _ in 0..len {
+                    key_no += 1 + r.usize(3) as u32;
+                    models[owner].push((format!("{:06}", key_no).into_bytes(), r.below(4)));
+                }
+                // the shared key(s) that end the run
+                for _ in 0..1 + r.usize(2) {
+                    key_no += 1;
+                    let base = 10 + r.below(5);
+                    let mut holders = 0;
+                    for (j, m) in models.iter_mut().enumerate() {
+                        if j == owner || r.below(3) != 0 {
+                            let v = match r.below(3) {
+                                0 => base - 1 - r.below(3),
+                                1 => base,
+                                _ => base + 1 + r.below(3),
+                            };
+                            m.push((format!("{:06}", key_no).into_bytes(), v));
+                            holders += 1;
+                        }
+                    }
+                    if holders >= 2 {
+                        ev.count("cov:run-ended-by-shared-key");
+                    }
+                }
+            }
+            let owned: Vec<Input> = models.into_iter().map(mk_input).collect();
+            let ins: Vec<(&Input, Kind)> = owned.iter().map(|i| (i, if b % 3 == 0 { *r.pick(&KINDS) } else { Kind::Whole })).collect();
+            ev.fps.insert(crate::rng::fnv_u64(0x6A11, b as u64));
+            ev.distinct_extra += 3;
+            check_tuple(&ins, b, ev);
+            ev.count("cov:run-structured-tuples");
+        }
         ev.add("cov:extend-on-non-empty-builder", EXTEND_ON_NONEMPTY.with(|c| c.get()));
         // zero streams: union / symmetric difference of nothing is empty
         if shard == 0 {
@@ -487,7 +535,7 @@ pub fn run(ctx: &Ctx) -> i32 {
         ev,
         Spec {
             level: "exploration",
-            rule: "one evaluation = one (tuple of input streams, operation) run through raw::/map::/set::OpBuilder (add, push, from_iter, and Extend on builders that already hold streams, in rotation) and compared with the set-theoretic definition: emitted keys, ascending order, exactly-once, and per key the sorted multiset of (stream index, value) entries (difference: only (0, v0)); inputs: ALL k-tuples of subsets of a 4-string universe for k<=5 (quick) / 6-string universe for k<=3 (thorough), all k<=3 tuples again behind a 70-byte common key prefix, sampled k up to 13, stream kinds rotated over {whole FST, range() stream, range cutting an extra key, search(AlwaysMatch), search(Complement(Str)) cutting an extra key, user Streamer over a Vec}, the same FST twice, values chosen so equal keys carry equal and differing values, random maps up to 10^3 (quick) / 10^5 (thorough) keys; plus is_disjoint/is_subset/is_superset on all ordered pairs of subsets with FST, range and user-stream arguments; non-trivial = every (tuple, op); distinct = by construction for the exhaustive part, by fingerprint for the sampled part",
+            rule: "one evaluation = one (tuple of input streams, operation) run through raw::/map::/set::OpBuilder (add, push, from_iter, and Extend on builders that already hold streams, in rotation) and compared with the set-theoretic definition: emitted keys, ascending order, exactly-once, and per key the sorted multiset of (stream index, value) entries (difference: only (0, v0)); inputs: ALL k-tuples of subsets of a 4-string universe for k<=5 (quick) / 6-string universe for k<=3 (thorough), all k<=3 tuples again behind a 70-byte common key prefix, sampled k up to 13, stream kinds rotated over {whole FST, range() stream, range cutting an extra key, search(AlwaysMatch), search(Complement(Str)) cutting an extra key, user Streamer over a Vec}, the same FST twice, values chosen so equal keys carry equal and differing values, run-structured tuples (stretches of 1..100 keys held by one stream only, ended by keys shared with other streams under smaller/equal/larger values), random maps up to 10^3 (quick) / 10^5 (thorough) keys; plus is_disjoint/is_subset/is_superset on all ordered pairs of subsets with FST, range and user-stream arguments; non-trivial = every (tuple, op); distinct = by construction for the exhaustive part, by fingerprint for the sampled part",
             assumptions: vec!["order among IndexedValue entries of one key is unspecified (heap order) and therefore compared as a sorted multiset".into(), "zero-stream difference/intersection are outside the statement and not judged".into()],
             floors: vec![
                 ("cov:has-empty-stream", 100),
@@ -503,6 +551,8 @@ pub fn run(ctx: &Ctx) -> i32 {
                 ("cov:tuples-with-70-byte-common-prefix", 1000),
                 ("cov:k=9", 100),
                 ("cov:k=12", 100),
+                ("cov:run-structured-tuples", 400),
+                ("cov:run-ended-by-shared-key", 1000),
             ],
             exhaustive: Some(false),
         },
